@@ -114,7 +114,24 @@ func c14Case(r *fw.Rand, index string) fw.Case {
 	observe()
 	steps := 5 + r.Intn(12)
 	for i := 0; i < steps; i++ {
-		switch r.Intn(12) {
+		switch r.Intn(13) {
+		case 12:
+			// a series loses all its points in this shard (a delete over every instant the
+			// history writes at; with a mirror shard the database keeps the series and its
+			// id), is written again, and the index is compacted
+			m := pm()
+			h := []string{"a", "b", "c"}[r.Intn(3)]
+			ops = append(ops, fmt.Sprintf("w %s|host=%s|%d|n=i%d", m, h, c10Base+int64(r.Intn(20))*1000, r.Intn(100)))
+			ops = append(ops, fmt.Sprintf("del %s %s %d %d", m, []string{"-", "host=" + h}[r.Intn(2)], c10Base, c10Base+40000))
+			ops = append(ops, fmt.Sprintf("w %s|host=%s|%d|n=i%d", m, h, c10Base+int64(r.Intn(20))*1000, r.Intn(100)))
+			if r.Intn(3) > 0 {
+				ops = append(ops, "idxcompact")
+			}
+			ops = append(ops, "seriesby "+m+" host eq "+h, "seriesby "+m+" host in "+h+",zz", "seriesby "+m+" host nin "+h+",zz")
+			if r.Intn(2) == 0 {
+				ops = append(ops, "reopen", "seriesby "+m+" host eq "+h)
+			}
+			observe()
 		case 0, 1, 2:
 			ops = append(ops, "w "+batch())
 		case 3, 4:
